@@ -103,6 +103,32 @@ DESC = {
     "C16-F": ("connect_to_server with explicit enter/exit and `except Exception` around the handshake", "cancellation or timeout while initialize is still waiting"),
     "C18-E": ("id filter skips only when `msg_id is not None`", "an error response with id null while a request is outstanding"),
     "C18-F": ("stdio `_route_message` tests `if not msg_id`", "response id 0 or \"\" with per-request streams"),
+    "C02-E": ("stdio writer hands payloads > 64 KiB to the pipe in 64 KiB pieces", "a > 64 KiB outgoing message, back-pressure on the child's stdin, batching off and the server sending a batch meanwhile (the reader's rejection lands inside the message)"),
+    "C02-F": ("SSE transport's synthesised transport-failure error echoes the stringified id", "integer request id and a failing POST on the SSE transport"),
+    "C04-E": ("`is_supported` as a lookup in a module-level defaultdict that `get_version_info` also indexes", "`get_version_info(V)` called once for a well-formed unsupported V, then an initialize with V"),
+    "C04-F": ("in-memory store numbers its session ids from `len(self.sessions)+1`", "a session other than the newest removed, then another initialize (the live session is overwritten with the later version)"),
+    "C07-E": ("error text built with the server's message as a `%` format", "error message containing a percent sign"),
+    "C07-F": ("`is_mcp_specific_error` unions a set in place", "`is_mcp_specific_error` called at least once earlier in the process, then a code of the other documented set"),
+    "C08-E": ("handler registry became a class attribute", "two ProtocolHandler/MCPServer objects alive in one process with different registrations"),
+    "C08-F": ("debug-only line dereferences `message.params` of an unhandled notification", "DEBUG logging enabled and an unknown notification without params"),
+    "C09-E": ("fallback per-class type-hints cache seeded at class creation", "a model annotated with a forward reference to a class defined later in its module"),
+    "C09-F": ("unified JSONRPCMessage.model_dump strips nested nulls under exclude_none (fallback JSON path only)", "an explicit null inside result / params / error.data, fallback backend"),
+    "C10-E": ("`ClientCapabilities.roots` default is one shared model instance", "fallback backend; one holder mutates its default-populated `roots`, then another object is validated without `roots`"),
+    "C10-F": ("fallback `model_dump_json` expands nested models in the encoder's `default` hook without `by_alias`", "`model_dump_json(by_alias=True)` on a model whose nested model has an aliased field, fallback backend"),
+    "C13-E": ("batching flag re-tested per batch member (`break`)", "the version switching to one without batching while a batch line is being routed"),
+    "C13-F": ("`update_protocol_version` returns early for an unchanged version + `__aenter__` re-enables batching", "the same StdioClient entered a second time and negotiating the same no-batching version again"),
+    "C17-E": ("`fast_json.loads` memoises short documents and hands out a shallow copy", "the same short text decoded twice with a consumer changing something nested in between"),
+    "C17-F": ("stdio writer sends a >= 64 KiB frame as payload and terminator in two writes", "a >= 64 KiB message and another writer (batch rejection) between the two writes"),
+    "C19-E": ("`list_sessions()` returns the store itself while it is empty", "a listing taken from an empty store, then modified (or the store modified and the listing read)"),
+    "C19-F": ("default session store created once as a default argument", "two ProtocolHandler/MCPServer objects in one process"),
+    "C20-E": ("parsed-config cache keyed by path treats a failing stat as unchanged", "a successful load, then the file removed (or rewritten with equal size and mtime), then a second call on the same path"),
+    "C20-F": ("quiet-server branch of the launcher drops `env=env`", "configured env containing LOG_LEVEL/LOGGING_LEVEL at ERROR or CRITICAL"),
+    "C02-A": ("parse_message structure check by truthiness instead of `is None`", "a result / id / params that is falsy (0, \"\", {}, [], false)"),
+    "C02-B": ("fallback serialiser drops null-valued entries of nested dicts under exclude_none", "an explicit null inside a free-form nested dict, fallback backend"),
+    "C07-A": ("`error.get(\"code\") or INTERNAL_ERROR`", "server error code exactly 0"),
+    "C07-B": ("boolean helper's catch-all narrowed to `(RetryableError, TimeoutError)`", "a non-retryable error code answered to send_resources_subscribe"),
+    "C13-A": ("`supports_batching` compares `datetime.date` objects", "a version string that is not a calendar date (2025-02-30, bogus)"),
+    "C13-B": ("batch rejection tests truthiness of the parsed list", "an empty batch `[]` while batching is off"),
 }
 
 
